@@ -386,9 +386,15 @@ func (f *Frame) exec(c *cursor, in ssa.Instruction) bool {
 		return false
 	case *ssa.MakeClosure:
 		fn := x.Fn.(*ssa.Function)
-		f.closures[x] = &closureVal{fn: fn, bindings: x.Bindings, frame: f}
+		cv := &closureVal{fn: fn, bindings: x.Bindings, frame: f}
+		f.closures[x] = cv
+		// closure values are distinct positive identities, so that a func value
+		// flowing through results and phis can be dispatched back to its code
+		e.nclosures++
 		id := e.declare(f.name(x)+".clo", SInt)
-		e.assume(gt(id, intLit(0)), id.S)
+		e.assume(eq(id, intLit(int64(1000000+e.nclosures))), id.S)
+		cv.id = id
+		e.closureIDs = append(e.closureIDs, cv)
 		f.vals[x] = id
 		return false
 	case *ssa.MakeMap:
